@@ -619,7 +619,33 @@ def link_generator(ctx, mutate=None, tag=""):
                 out.append(Obl(c.oid, c.fn, "template", c.text, status=DISCHARGED if r["same"] else REFUTED, backend="template-oracle",
                                detail="real text %r\n  parses to %s\nexpected %r\n  parses to %s" % (c.real[:400], r["real"][:500], c.expected[:400], r["expected"][:500]) if not r["same"] else "ASTs equal",
                                props=c.props, model=dict(c.note or {}, real_text=c.real[:600], expected_text=c.expected[:600]) if not r["same"] else None, replay=c.replay or gen_replay))
+    for o in out:
+        o.props = widen(o.id, o.props)
     return out
+
+
+# which further properties an obligation family of the generator serves (reviewed with tools/tagdump.py): the key expression
+# and the function skeleton carry every property about WHERE a unit lands and WHAT runs; the return statement carries the
+# labels, their order and their weights for every property that looks at the selected group
+WIDEN = [
+    (r"generate_key_definition", ("C01", "C05", "C07", "C09", "C10", "C12", "C13", "C15")),
+    (r":generate/|:generate$", ("C01", "C02", "C03", "C05", "C07", "C09", "C10", "C12", "C13", "C14", "C15")),
+    (r"_generate_group_return_statement|:groups", ("C07", "C09", "C14", "C15", "C16", "C03", "C10")),
+    (r"_generate_conditionals|:conditionals", ("C03", "C05", "C09")),
+    (r"render_topline", ("C02", "C07")),
+    (r"_generate_term/.*denotes", ("C14",)),
+    (r"local_vars|conditional_ids|:keys", ("C10", "C15", "C07", "C12", "C09", "C01")),
+    (r"__init__|:init", ("C03", "C10", "C12")),
+]
+
+
+def widen(oid, props):
+    import re
+    extra = set()
+    for pat, ps in WIDEN:
+        if re.search(pat, oid):
+            extra.update(ps)
+    return tuple(sorted(set(props) | extra))
 
 
 def _dsl_lit(v):
